@@ -1,5 +1,5 @@
 (* C02 - Loss recovery: any loss leaving k symbols per block still delivers the object. *)
-From FluteV Require Import Model.ObjRecv Model.Recv Spec.RecvSpec Spec.SessionSpec Proofs.RecvProofs Proofs.SessionProofs Proofs.C02Full Proofs.C02RS.
+From FluteV Require Import Model.ObjRecv Model.Recv Spec.RecvSpec Spec.SessionSpec Proofs.RecvProofs Proofs.SessionProofs Proofs.C02Full Proofs.C02Session.
 Open Scope N_scope.
 
 (* Object-level statement, proved for the No-Code scheme without content encoding (Proofs/C02Full.v).
@@ -96,151 +96,118 @@ Example C02_guards_are_needed :
   /\ fst (summary 7 (receive env_ok 1 ex2_files None 7 3 ex2_pkts)) = Errored.
 Proof. vm_compute. repeat split. Qed.
 
-(* ---------------- Reed-Solomon GF(2^8): FEC 5 (FRS28) and FEC 129 (FRS28US), Proofs/C02RS.v ----------------
-   Same setting as C02_nocode_recoverable_delivers, for ro_fec oti in {FRS28, FRS28US} with parity p = ro_parity oti.
-   The decoder is an oracle of the model (e_fec); its correctness is the EXPLICIT, TRUSTED hypothesis
-     rs_oracle_mds E oti content rep toi :
-       whenever e_fec is called for a block s < n with at least k_s shards that are genuine (distinct ESI below
-       k_s + p; the shard of ESI i < k_s is symbol (offset of s) + i of the zero-padded object, the shard of ESI
-       i >= k_s is the sender's repair symbol rep s i - rep is universally quantified), it returns the padded source
-       block rs_block oti content s (k_s * E bytes), whatever block size it is passed.
-   Nothing is assumed for fewer than k shards: the model never calls the oracle then
-   (C02_rs_oracle_only_with_k_shards), and it reassembles the block itself when all k source symbols are stored.
-   Premises beyond the No-Code ones:
-   - rs_blocks_ok: ReedSolomon::new(k, p) succeeds for every block: 0 < p and k + p <= 256  [rs_parity_zero_refuted];
-   - rs_mem_need oti L <= max: L for FEC 5, but ceil(L / E) * E for FEC 129, whose receiver accounts k * E bytes per
-     block from the source block length of the payload id  [rs129_memory_limit_refuted];
-   - genuine packets: payload id in the scheme's own layout (FEC 5: 24-bit SBN + 8-bit ESI; FEC 129: 32-bit SBN,
-     16-bit source block length = k_s, 16-bit ESI), ESI < k_s + p, payload = the encoding symbol (source symbols are
-     padded to E, as rscodec.rs create_shards does); any order, any duplication;
-   - rs_recoverable = blocks_recoverable true p ks 0 (the (sbn, esi) that arrived): every block has k distinct ESI
-     below k + p. *)
-Theorem C02_rs_recoverable_delivers : forall E oti content rep toi max fid files inst md5 pkts,
+(* ---------------- the session level: Model/Recv.v, Proofs/C02Session.v ----------------
+   The receiver as a whole (recv_run from recv0 / ctx0) is fed ONE FDT instance, carried by one packet [pf] of TOI 0,
+   and the packets of the No-Code object [toi] <> 0, all at the same receiver time [now].  Premises beyond those of
+   C02_nocode_recoverable_delivers (whose max is now cf_max_cache cfg, the limit push_obj gives or_new):
+   - fdt_pkt_ok pf id foti d (what push_fdt_obj / fr_push / the inner object receiver need): TOI 0, EXT_FDT = id,
+     EXT_FTI = (foti, |d|) with foti a No-Code OTI, EXT_CENC absent or null, 0 < |d| <= 1 MiB (the FDT receiver's
+     own limit), and the document d is the packet's single source symbol (genuine_pkt, recoverable for [pf] alone);
+   - parse_fdt d = Some inst (the parser is an oracle), and inst lists toi with the object's OTI, length, MD5, cenc null
+     (fdt_entry_for, the instance OTI as fallback);
+   - fdt_live cfg inst pf now: cf_exp_check = false, or Expires >= the sender's clock (EXT_TIME of pf if present, else
+     now)  [C02_session_fdt_expired_refuted];
+   - every object packet has a_toi = toi, is genuine; any order, any duplication; close flag as in close_flag_ok.
+   Conclusion (session_delivered): whatever else the run did (a duplicate after completion may open a second writer
+   (toi,1), see C02_session_surprises), the calls of the object's first writer (toi,0) are exactly
+   open(ok) . write* . complete with the written bytes = content (delivered_calls), hence complete_exact; and when
+   cf_once = true and the entry is not Cache-Control:no-cache, the whole log is builder/open/writes/complete
+   (ShapeDone), the object has left rv_objects, rv_error is empty and rv_completed = [toi]. *)
+Theorem C02_session_fdt_first_delivers : forall E parse_fdt cfg oti content toi md5 now pf id foti d inst pkts,
   let L := lenN_ content in
-  rs_scheme_ok oti L -> rs_blocks_ok oti L -> fdt_entry_for files inst toi oti L md5 ->
+  nocode_ok oti L -> toi <> 0 ->
+  fdt_pkt_ok pf id foti d -> parse_fdt d = Some inst -> fdt_live cfg inst pf now ->
+  fdt_entry_for (fi_files inst) (fi_oti inst) toi oti L md5 ->
   writer_accepts E toi -> writes_succeed E toi -> md5_good E content md5 ->
-  rs_oracle_mds E oti content rep toi ->
-  rs_mem_need oti L <= max -> nb_blocks_of oti L <= 4097 ->
-  Forall (fun p => rs_genuine_pkt oti content rep p = true) pkts ->
-  rs_close_flag_ok oti L pkts ->
-  rs_recoverable oti L pkts = true ->
-  let (o, c) := receive E fid files inst toi max pkts in
-  r_state o = Completed
-  /\ ShapeDone content (toi, 0%nat) toi c
-  /\ forall m, complete_exact content (m, calls_of (toi, 0%nat) (c_log c)) = true
-                /\ P_C02_object (rs_recoverable oti L pkts) content [(m, calls_of (toi, 0%nat) (c_log c))] = true.
-Proof. exact rs_recoverable_delivers. Qed.
-Print Assumptions C02_rs_recoverable_delivers.
+  L <= cf_max_cache cfg -> nb_blocks_of oti L <= 4097 ->
+  Forall (fun p => a_toi p = toi) pkts ->
+  Forall (fun p => genuine_pkt oti content p = true) pkts ->
+  close_flag_ok oti L pkts ->
+  recoverable oti L pkts = true ->
+  let '(_, r, c) := recv_run E parse_fdt cfg recv0 (map (fun p => RvPush p now) (pf :: pkts)) ctx0 in
+  session_delivered cfg inst content toi r c.
+Proof. exact session_fdt_first_delivers. Qed.
+Print Assumptions C02_session_fdt_first_delivers.
 
-(* the oracle hypothesis, unfolded once (definitions rs_k, rs_symbol, rs_block, rs_shards_genuine in Proofs/C02RS.v) *)
-Theorem C02_rs_oracle_mds_statement : forall E oti content rep toi,
-  rs_oracle_mds E oti content rep toi <->
-  (forall s size sh, s < nb_blocks_of oti (lenN_ content) ->
-     rs_k oti (lenN_ content) s <= N.of_nat (length sh) ->
-     NoDup (map fst sh)
-     /\ Forall (fun p => fst p < rs_k oti (lenN_ content) s + ro_parity oti
-                         /\ snd p = rs_symbol oti content rep s (fst p)) sh ->
-     e_fec E toi (ro_fec oti) s (rs_k oti (lenN_ content) s) (ro_e oti) size sh = Some (rs_block oti content s)).
-Proof. intros. reflexivity. Qed.
-Print Assumptions C02_rs_oracle_mds_statement.
-
-Theorem C02_rs_no_close_flag : forall oti L pkts,
-  Forall (fun p => a_close_obj p = false) pkts -> rs_close_flag_ok oti L pkts.
-Proof. exact rs_close_flag_ok_noflag. Qed.
-Print Assumptions C02_rs_no_close_flag.
-
-(* with fewer than k stored shards the Reed-Solomon block decoder of the model does not consult the oracle *)
-Theorem C02_rs_oracle_only_with_k_shards : forall E E' t oti s esi pl d,
-  ro_fec oti = FRS28 \/ ro_fec oti = FRS28US -> e_debug E = e_debug E' ->
-  (forall sh, bd_k d <= N.of_nat (length sh) ->
-     e_fec E t (ro_fec oti) s (bd_k d) (ro_e oti) (bd_size d) sh = e_fec E' t (ro_fec oti) s (bd_k d) (ro_e oti) (bd_size d) sh) ->
-  bd_push E t oti s esi pl d = bd_push E' t oti s esi pl d.
-Proof. exact rs_oracle_only_with_k_shards. Qed.
-Print Assumptions C02_rs_oracle_only_with_k_shards.
-
-(* non-vacuity: a toy systematic code with one XOR parity symbol per block and its erasure decoder (xor_dec)
-   satisfy the oracle hypothesis for a 5-byte object (E = 2, B = 2, p = 1) and for its FEC 129 variant *)
-Theorem C02_rs_oracle_hypothesis_satisfiable :
-  rs_oracle_mds env_xor exr_oti exr_content exr_rep 7 /\ rs_oracle_mds env_xor exu_oti exr_content exu_rep 7.
-Proof. exact (conj xor_dec_mds xor_dec_mds_129). Qed.
-Print Assumptions C02_rs_oracle_hypothesis_satisfiable.
-
-(* block 0 recovered from its parity symbol and one source symbol, block 1 from its parity symbol alone;
-   packets shuffled and duplicated: the premises hold and the model delivers [1;2;3;4] then [5] *)
-Example C02_rs_example_delivery :
-  forallb (rs_genuine_pkt exr_oti exr_content exr_rep) exr_pkts = true
-  /\ rs_recoverable exr_oti 5 exr_pkts = true
-  /\ map (rs_pid exr_oti) exr_pkts = [(1, 1); (0, 2); (1, 1); (0, 0); (0, 2)]
-  /\ summary 7 (receive env_xor 1 exr_files None 7 1000 exr_pkts)
-     = (Completed, [CallOpen true; CallWrite [1; 2; 3; 4] true; CallWrite [5] true; CallComplete]).
-Proof. vm_compute. repeat split. Qed.
-
-(* the new guards are needed: parity 0 (every source symbol arrives, still Errored), and FEC 129 with
-   max_size_allocated = transfer length 5 < 6 = rs_mem_need (Errored; delivered with 6) *)
-Example C02_rs_guards_are_needed :
-  rs_recoverable exz_oti 5 exz_pkts = true
-  /\ fst (summary 7 (receive env_xor 1 exz_files None 7 1000 exz_pkts)) = Errored
-  /\ rs_recoverable exu_oti 5 exu_pkts = true
-  /\ fst (summary 7 (receive env_xor 1 exu_files None 7 5 exu_pkts)) = Errored
-  /\ fst (summary 7 (receive env_xor 1 exu_files None 7 6 exu_pkts)) = Completed.
-Proof. vm_compute. repeat split. Qed.
-
-(* ---------------- RaptorQ (FEC 6) and Raptor (FEC 1), Proofs/C02RS.v ----------------
-   The block decoder of the model stores every symbol with a new ESI and asks the oracle after every push.
-   The codes are not modelled: [enc s i] is whatever the sender's encoder produces for (sbn, esi), universally
-   quantified.  EXPLICIT, TRUSTED hypotheses on the oracle, called with k_s and the block length of the partition:
-     fq_oracle_sound:    given genuine symbols with distinct ESI, whatever it answers is the block of the object
-                         (followed by padding only if it is the last block);
-     fq_oracle_complete: given genuine symbols among which all k_s source symbols, it does answer.
-   Premises beyond the No-Code ones: the scheme-specific information is present (ro_scheme <> None)
-   [fq_scheme_missing_refuted].  fq_recoverable = blocks_recoverable false 0 ks 0: every source symbol of every
-   block arrived (Spec/SessionSpec); repair packets may be interleaved.  Recovery from fewer source symbols is
-   entirely the decoder's and is not stated. *)
-Theorem C02_fq_recoverable_delivers : forall E oti content enc toi max fid files inst md5 pkts,
+(* FDT late: the packets pkts1 arrive BEFORE the FDT instance and carry EXT_FTI = (oti, L), no EXT_CENC and no
+   close-object flag [C02_session_close_flag_before_fdt_refuted]: they are decoded without FDT and without writer
+   (nothing is logged); the instance then opens the writer and flushes the completed blocks from block 0; pkts2 follow.
+   genuine / close_flag_ok / recoverable are those of the whole list pkts1 ++ pkts2.  pkts1 = [] is the theorem above. *)
+Theorem C02_session_fdt_late_delivers : forall E parse_fdt cfg oti content toi md5 now pf id foti d inst pkts1 pkts2,
   let L := lenN_ content in
-  fq_scheme_ok oti L -> ro_scheme oti <> None -> fdt_entry_for files inst toi oti L md5 ->
+  nocode_ok oti L -> toi <> 0 ->
+  fdt_pkt_ok pf id foti d -> parse_fdt d = Some inst -> fdt_live cfg inst pf now ->
+  fdt_entry_for (fi_files inst) (fi_oti inst) toi oti L md5 ->
   writer_accepts E toi -> writes_succeed E toi -> md5_good E content md5 ->
-  fq_oracle_sound E oti content enc toi -> fq_oracle_complete E oti content enc toi ->
-  L <= max -> nb_blocks_of oti L <= 4097 ->
-  Forall (fun p => fq_genuine_pkt oti content enc p = true) pkts ->
-  fq_close_flag_ok oti L pkts ->
-  fq_recoverable oti L pkts = true ->
-  let (o, c) := receive E fid files inst toi max pkts in
-  r_state o = Completed
-  /\ ShapeDone content (toi, 0%nat) toi c
-  /\ forall m, complete_exact content (m, calls_of (toi, 0%nat) (c_log c)) = true
-                /\ P_C02_object (fq_recoverable oti L pkts) content [(m, calls_of (toi, 0%nat) (c_log c))] = true.
-Proof. exact fq_recoverable_delivers. Qed.
-Print Assumptions C02_fq_recoverable_delivers.
+  L <= cf_max_cache cfg -> nb_blocks_of oti L <= 4097 ->
+  Forall (fun p => a_toi p = toi) (pkts1 ++ pkts2) ->
+  Forall (fun p => genuine_pkt oti content p = true) (pkts1 ++ pkts2) ->
+  Forall (fun p => a_oti p = Some (oti, L) /\ a_cenc p = None /\ a_close_obj p = false) pkts1 ->
+  close_flag_ok oti L (pkts1 ++ pkts2) ->
+  recoverable oti L (pkts1 ++ pkts2) = true ->
+  let '(_, r, c) := recv_run E parse_fdt cfg recv0 (map (fun p => RvPush p now) (pkts1 ++ pf :: pkts2)) ctx0 in
+  session_delivered cfg inst content toi r c.
+Proof. exact session_fdt_late_delivers. Qed.
+Print Assumptions C02_session_fdt_late_delivers.
 
-Theorem C02_fq_oracle_statements : forall E oti content enc toi,
-  (fq_oracle_sound E oti content enc toi <->
-   (forall s sh d, s < nb_blocks_of oti (lenN_ content) ->
-      NoDup (map fst sh) /\ Forall (fun p => snd p = enc s (fst p)) sh ->
-      e_fec E toi (ro_fec oti) s (rs_k oti (lenN_ content) s) (ro_e oti) (obj_block_len oti (lenN_ content) s) sh = Some d ->
-      exists z, d = obj_block oti content s ++ z /\ (s + 1 < nb_blocks_of oti (lenN_ content) -> z = [])))
-  /\ (fq_oracle_complete E oti content enc toi <->
-   (forall s sh, s < nb_blocks_of oti (lenN_ content) ->
-      NoDup (map fst sh) /\ Forall (fun p => snd p = enc s (fst p)) sh ->
-      (forall j, j < rs_k oti (lenN_ content) s -> has_esi j sh = true) ->
-      e_fec E toi (ro_fec oti) s (rs_k oti (lenN_ content) s) (ro_e oti) (obj_block_len oti (lenN_ content) s) sh <> None)).
-Proof. intros. split; reflexivity. Qed.
-Print Assumptions C02_fq_oracle_statements.
+(* the vocabulary of the two theorems, unfolded once *)
+Theorem C02_session_statements : forall cfg inst content toi r c pf id foti d now,
+  (session_delivered cfg inst content toi r c <->
+   (exists ws, calls_of (toi, 0%nat) (c_log c) = CallOpen true :: ws ++ [CallComplete]
+               /\ Forall (fun cl => match cl with CallWrite _ _ => True | _ => False end) ws
+               /\ written ws = content)
+   /\ (forall m, complete_exact content (m, calls_of (toi, 0%nat) (c_log c)) = true)
+   /\ (cf_once cfg = true -> entry_nocache inst toi = false ->
+       rv_objects r = [] /\ rv_completed r = [toi] /\ rv_error r = [] /\ ShapeDone content (toi, 0%nat) toi c))
+  /\ (fdt_pkt_ok pf id foti d <->
+      a_toi pf = 0 /\ a_fdt_id pf = Some id /\ a_oti pf = Some (foti, lenN_ d)
+      /\ (a_cenc pf = None \/ a_cenc pf = Some CNull)
+      /\ nocode_ok foti (lenN_ d) /\ lenN_ d <= 1048576
+      /\ genuine_pkt foti d pf = true /\ recoverable foti (lenN_ d) [pf] = true)
+  /\ (fdt_live cfg inst pf now <->
+      cf_exp_check cfg = false
+      \/ exists ex, fi_expires inst = Some ex /\ (ex <? match a_sct pf with Some t => t | None => now end)%Z = false).
+Proof. intros. split; [reflexivity|split; reflexivity]. Qed.
+Print Assumptions C02_session_statements.
 
-(* non-vacuity: a systematic toy code whose decoder reassembles the source symbols and ignores repair symbols
-   satisfies both hypotheses for every object *)
-Theorem C02_fq_oracle_hypotheses_satisfiable : forall oti content rep toi,
-  0 < ro_e oti -> 0 < ro_b oti -> 0 < lenN_ content ->
-  fq_oracle_sound env_sys oti content (rs_symbol oti content rep) toi
-  /\ fq_oracle_complete env_sys oti content (rs_symbol oti content rep) toi.
-Proof. intros oti content rep toi. exact (sys_dec_oracle env_sys oti content rep toi (fun _ _ _ _ _ _ _ => eq_refl)). Qed.
-Print Assumptions C02_fq_oracle_hypotheses_satisfiable.
+(* non-vacuity: a toy parser (the document "<>" is the instance listing TOI 7), the FDT packet, then ex_pkts
+   (shuffled, duplicated), receive-once: every packet is accepted, TOI 7 ends in rv_completed, the log is the
+   delivery; the same with three packets (EXT_FTI) before the FDT packet; both also follow from the theorems
+   (ex_session_by_theorem, ex_session_late_by_theorem in Proofs/C02Session.v) *)
+Example C02_session_example :
+  sess (tx_parse false None) (tx_cfg true false) (tx_fdt None :: ex_pkts)
+  = ([POk; POk; POk; POk; POk; POk], [], [7], [], delivered_log)
+  /\ sess (tx_parse false None) (tx_cfg true false) (map with_fti (firstn 3 ex_pkts) ++ tx_fdt None :: skipn 3 ex_pkts)
+     = ([POk; POk; POk; POk; POk; POk], [], [7], [], delivered_log).
+Proof. vm_compute. split; reflexivity. Qed.
 
-Example C02_fq_example_delivery :
-  forallb (fq_genuine_pkt exq_oti exr_content exq_enc) exq_pkts = true
-  /\ map (rs_pid exq_oti) exq_pkts = [(1, 0); (0, 5); (0, 1); (1, 0); (0, 0)]
-  /\ fq_recoverable exq_oti 5 exq_pkts = true
-  /\ summary 7 (receive env_sys 1 exq_files None 7 1000 exq_pkts)
-     = (Completed, [CallOpen true; CallWrite [1; 2; 3; 4] true; CallWrite [5] true; CallComplete])
-  /\ fst (summary 7 (receive env_sys 1 exn_files None 7 1000 exq_pkts)) = Errored.
-Proof. vm_compute. repeat split. Qed.
+(* fdt_live is needed: expiry check on and no Expires, or Expires behind the receiver's clock and no EXT_TIME:
+   the instance is never attached, the packets stay cached, nothing is delivered *)
+Example C02_session_fdt_expired_refuted :
+  sess (tx_parse false None) (tx_cfg true true) (tx_fdt None :: ex_pkts) = ([POk; POk; POk; POk; POk; POk], [7], [], [], [])
+  /\ sess (tx_parse false (Some 50%Z)) (tx_cfg true true) (tx_fdt None :: ex_pkts) = ([POk; POk; POk; POk; POk; POk], [7], [], [], [])
+  /\ sess (tx_parse false (Some 50%Z)) (tx_cfg true true) (tx_fdt (Some 40%Z) :: ex_pkts)
+     = ([POk; POk; POk; POk; POk; POk], [], [7], [], delivered_log).
+Proof. exact fdt_expired_refuted. Qed.
+
+(* "no close-object flag before the FDT instance" is needed: the complete in-order transfer (EXT_FTI on every packet,
+   B flag on the last) followed by the FDT instance delivers NOTHING - the decoded object is interrupted for want of a
+   writer and error-listed; the same packets after the FDT instance are delivered *)
+Example C02_session_close_flag_before_fdt_refuted :
+  forallb (genuine_pkt ex_oti ex_content) (map with_fti ex_pkts_inorder) = true
+  /\ recoverable ex_oti 5 (map with_fti ex_pkts_inorder) = true
+  /\ sess (tx_parse false None) (tx_cfg true false) (map with_fti ex_pkts_inorder ++ [tx_fdt None])
+     = ([POk; POk; POk; POk], [], [], [7], [])
+  /\ sess (tx_parse false None) (tx_cfg true false) (tx_fdt None :: map with_fti ex_pkts_inorder)
+     = ([POk; POk; POk; POk], [], [7], [], delivered_log).
+Proof. exact close_flag_before_fdt_refuted. Qed.
+
+(* after the delivery: a no-cache object is re-created by any late duplicate (second writer (7,1) opened, also with
+   receive-once); with receive-once off a duplicate of symbol (0,0) restarts the reception *)
+Example C02_session_surprises :
+  sess (tx_parse true None) (tx_cfg true false) (tx_fdt None :: ex_pkts)
+  = ([POk; POk; POk; POk; POk; POk], [7], [], [], delivered_log ++ [EvBuilder 7 WStore; EvOpen (7, 1%nat) true])
+  /\ sess (tx_parse false None) (tx_cfg false false) (tx_fdt None :: ex_pkts ++ [src_pkt 7 0 0 false [1; 2]])
+     = ([POk; POk; POk; POk; POk; POk; POk], [7], [], [], delivered_log ++ [EvBuilder 7 WStore; EvOpen (7, 1%nat) true]).
+Proof. vm_compute. split; reflexivity. Qed.
+
